@@ -136,6 +136,43 @@ fn c10_add_constant() {
     assert!(c.instructions.len() == 0);
 }
 
+fn any_immediate() -> Object {
+    let k: u8 = kani::any();
+    match k % 4 {
+        0 => Object::null(),
+        1 => Object::bool(kani::any()),
+        2 => Object::int(any_int()),
+        _ => Object::function(kani::any(), kani::any()),
+    }
+}
+/// O10.1t [thorough tier; bounded: pool of 0..=3 entries drawn from ALL immediates (null, bools, ints, function descriptors), symbolic new
+/// immediate constant] the same contract as O10.1, plus: an existing equal entry is re-used (the pool does not grow)
+/// and a new one is appended at the end
+#[kani::proof]
+#[kani::unwind(7)]
+#[kani::stub(Object::as_str_unchecked, as_str_contract)]
+#[kani::stub(Object::as_f64_unchecked, as_f64_contract)]
+fn c10_add_constant_pool3() {
+    let mut c = compiler_with(vec![]);
+    let n: usize = kani::any();
+    kani::assume(n <= 3);
+    let e = [any_immediate(), any_immediate(), any_immediate(), any_immediate()];
+    let obj = any_immediate();
+    c.constants = Vec::with_capacity(6);
+    if n >= 1 { c.constants.push(e[0]); }
+    if n >= 2 { c.constants.push(e[1]); }
+    if n >= 3 { c.constants.push(e[2]); }
+    if n >= 4 { c.constants.push(e[3]); }
+    kani::cover!(n == 3 && word(obj) == word(e[2]) && word(obj) != word(e[0]));
+    let idx = match &*ManuallyDrop::new(c.add_constant(obj)) { Ok(i) => *i as usize, Err(_) => { assert!(false); 0 } };
+    assert!(idx < c.constants.len() && word(c.constants[idx]) == word(obj));
+    let mut present = false;
+    let mut k = 0;
+    while k < n { assert!(word(c.constants[k]) == word(e[k])); if word(e[k]) == word(obj) { present = true; } k += 1; }
+    assert!(c.constants.len() == if present { n } else { n + 1 });
+    if !present { assert!(idx == n); }
+}
+
 fn trace_contract(_gc: &mut GC, _o: Object) {}
 /// O10.1f [bounded: pool of one float constant, ALL pairs of f64 bit patterns] a float literal is stored in (or
 /// merged into) a slot whose value is IEEE-equal to it - two different float literals never share a slot
@@ -158,4 +195,64 @@ fn c10_add_constant_float() {
     assert!(c.constants[idx].tag() == crate::object::Type::Float);
     assert!(c.constants[idx].as_f64() == y);
     assert!(c.constants[0].as_f64().to_bits() == x.to_bits());
+}
+
+// ------------------------------------------------------------------------------------------
+// C09  bounded twin of the block contract (Verus unit c02_blocks, O02.blocks) on the real compile_block_statement,
+// whatever its syntactic form. Callees are recorders (modular): the scope operations move a ghost depth, the
+// statement generator records at which depth it was called and for which statement.
+// ------------------------------------------------------------------------------------------
+static mut DEPTH: i32 = 0;
+static mut STMT_CALLS: usize = 0;
+static mut STMT_DEPTH_OK: bool = true;
+static mut STMT_ORDER_OK: bool = true;
+static mut STMT_ADDR: [usize; 3] = [0; 3];
+fn enter_scope_rec(_t: &mut crate::symbols::SymbolTable) { unsafe { DEPTH += 1; } }
+fn leave_scope_rec(_t: &mut crate::symbols::SymbolTable) { unsafe { DEPTH -= 1; } }
+fn compile_statement_rec(c: &mut Compiler, s: &Stmt) -> Result<(), Error> {
+    unsafe {
+        if DEPTH != 1 { STMT_DEPTH_OK = false; }
+        if STMT_CALLS >= 3 || STMT_ADDR[STMT_CALLS] != s as *const Stmt as usize { STMT_ORDER_OK = false; }
+        STMT_CALLS += 1;
+    }
+    c.instructions.push(0);
+    Ok(())
+}
+/// O09.4k [bounded: blocks of 1..=3 statements of any of three shapes]  every statement of a non-empty block is
+/// handed to the statement generator exactly once, in order, ONE SCOPE DEEPER than the block itself, and the depth is
+/// back afterwards (names declared in the block cease to exist at its end) - also for a block that holds a single
+/// expression statement
+#[kani::proof]
+#[kani::unwind(5)]
+#[kani::stub(crate::symbols::SymbolTable::enter_scope, enter_scope_rec)]
+#[kani::stub(crate::symbols::SymbolTable::leave_scope, leave_scope_rec)]
+#[kani::stub(Compiler::compile_statement, compile_statement_rec)]
+fn c09_block_scope_twin() {
+    let n: usize = kani::any();
+    kani::assume(n >= 1 && n <= 3);
+    let shape: [u8; 3] = kani::any();
+    let mut stmts: Vec<Stmt> = Vec::with_capacity(3);
+    let mut i = 0;
+    while i < n {
+        stmts.push(match shape[i] % 3 {
+            0 => Stmt::Expr(Expr::Bool { value: true }),
+            1 => Stmt::Break,
+            _ => Stmt::Return(Expr::Int { value: 1 }),
+        });
+        i += 1;
+    }
+    let stmts = ManuallyDrop::new(stmts);
+    unsafe {
+        DEPTH = 0; STMT_CALLS = 0; STMT_DEPTH_OK = true; STMT_ORDER_OK = true;
+        let mut k = 0;
+        while k < n { STMT_ADDR[k] = &stmts[k] as *const Stmt as usize; k += 1; }
+    }
+    kani::cover!(n == 1 && shape[0] % 3 == 0);
+    let mut c = compiler_with(vec![]);
+    let r = ManuallyDrop::new(c.compile_block_statement(&stmts[..]));
+    assert!(r.is_ok());
+    assert!(unsafe { STMT_CALLS } == n);
+    assert!(unsafe { STMT_DEPTH_OK }, "a statement of the block was compiled at the block's own depth");
+    assert!(unsafe { STMT_ORDER_OK });
+    assert!(unsafe { DEPTH } == 0);
 }
